@@ -1,4 +1,4 @@
 Require Import Verif.AF.AFModel.
 Require Extraction ExtrOcamlBasic.
 Extraction Language OCaml.
-Extraction "af_model.ml" dinit dstep ddone doutcome sref needed expect_error vertex_res proc_fn preset_env pinit pstep cells cms pmove.
+Extraction "af_model.ml" dinit dstep ddone doutcome sref needed expect_error vertex_res proc_fn preset_env pinit pstep cells cms pmove binit bstep bearly bfin bfired btargets.
